@@ -97,12 +97,19 @@ class Sched:
     later tasks of the generation are still being submitted); the others run, in the order given for the batch, when
     a result is first needed."""
 
-    def __init__(self, pis, eager=()):
+    def __init__(self, pis, eager=(), gen_of=None):
         self.cur = []
         self.pis = list(pis)
         self.eager = [set(e) for e in eager]
+        self.gen_of = gen_of          # function name -> generation (a generation without tasks opens no batch)
         self.batches = []
+        self.batch_gens = []
         self.in_task = False
+
+    def _gen(self, entry):
+        if self.gen_of is None or entry[5] not in self.gen_of:
+            return len(self.batches)
+        return self.gen_of[entry[5]]
 
     def _run(self, entry):
         fut, fn, args, kwargs = entry[:4]
@@ -120,9 +127,9 @@ class Sched:
     def submit(self, fut, fn, args, kwargs):
         fut._batch = len(self.batches)
         slot = len(self.cur)
-        entry = [fut, fn, args, kwargs, False]
+        entry = [fut, fn, args, kwargs, False, _task_name(fn, args)]
         self.cur.append(entry)
-        g = len(self.batches)
+        g = self._gen(entry)
         if g < len(self.eager) and slot in self.eager[g]:
             self._run(entry)
 
@@ -131,7 +138,8 @@ class Sched:
         if fut._batch != len(self.batches) or not self.cur or self.in_task:
             return
         batch, self.cur = self.cur, []
-        g = len(self.batches)
+        g = self._gen(batch[0])
+        self.batch_gens.append(g)
         pi = self.pis[g] if g < len(self.pis) else []
         n = len(batch)
         if sorted(pi) != list(range(n)):     # not a permutation of the slots: submission order (as Model/ParGen.order)
@@ -140,6 +148,16 @@ class Sched:
         for slot in pi:
             if not batch[slot][4]:
                 self._run(batch[slot])
+
+
+def _task_name(fn, args):
+    """Name of the PipeFunc a submitted task belongs to (_run_iteration_and_process partial / _execute_single)."""
+    kw = getattr(fn, "keywords", None)
+    if kw and "func" in kw:
+        return getattr(kw["func"], "__name__", None)
+    if args:
+        return getattr(args[0], "__name__", None)
+    return None
 
 
 class LazyFuture(Future):
@@ -298,9 +316,10 @@ def dump_code(o, key, w):
 
 
 class DumpRecorder:
-    def __init__(self, is_worker):
+    def __init__(self, is_worker, linear=False):
         self.events = []
         self.is_worker = is_worker
+        self.linear = linear
 
     def __enter__(self):
         from pipefunc.map._storage_array._dict import DictArray
@@ -311,7 +330,8 @@ class DumpRecorder:
 
         def wrap(orig):
             def dump(self, key, value):
-                rec.events.append((id(self), tuple(int(k) for k in key), 1 if rec.is_worker() else 0))
+                rec.events.append((id(self), tuple(int(k) for k in key), 1 if rec.is_worker() else 0,
+                                   tuple(int(x) for x in self.shape)))
                 return orig(self, key, value)
             return dump
 
@@ -326,7 +346,12 @@ class DumpRecorder:
     def obs(self, req, results):
         outs = [o for f in req["funcs"] for o in f["outs"]]
         pos = {id(results[o].store): k for k, o in enumerate(outs) if o in results}
-        return [dump_code(pos.get(i, len(outs)), key, w) for i, key, w in self.events]
+        if self.linear:   # runs on an existing store: 2 * (output + 32 * (1 + linear external index)), who not recorded
+            import numpy as np
+
+            return [2 * (pos.get(i, len(outs)) + 32 * (1 + (int(np.ravel_multi_index(key, sh)) if key else 0)))
+                    for i, key, _, sh in self.events]
+        return [dump_code(pos.get(i, len(outs)), key, w) for i, key, w, _ in self.events]
 
 
 # ------------------------------------------------------------------ canonical log
@@ -363,8 +388,9 @@ def _drop_process_pool():
             p.shutdown(wait=False, cancel_futures=True)
 
 
-def _call_map(p, req, run, d, executor):
-    kw = dict(run_folder=d, internal_shapes=mapsym.internal_arg(req), storage=storage_arg(req, run), executor=executor)
+def _call_map(p, req, run, d, executor, cleanup=True, fixed=None):
+    kw = dict(run_folder=d, internal_shapes=mapsym.internal_arg(req), storage=storage_arg(req, run), executor=executor,
+              cleanup=cleanup, fixed_indices=fixed)
     inputs = mapsym.map_inputs(req)
     if run["entry"] == "map":
         return p.map(inputs, parallel=True, **kw)
@@ -389,32 +415,56 @@ def _values(req, r, folder):
     return [[a, b, mapsym.arr_obs(v)] for (_, a, b), v in zip(obs, loaded)]
 
 
-def _run(c, run):
-    """One run of the real implementation: [values, log lines, dumps] (strings not yet interned)."""
+_LAST = {}
+
+
+def _gen_of(c):
+    return {c["req"]["funcs"][pos]["name"]: k for k, g in enumerate(c["gens"]) for pos in g}
+
+
+def _run(c, run, resume=None):
+    """One run of the real implementation: [values, log lines, dumps, sorted log of the pre-filling runs]
+    (strings not yet interned).  resume = {"pre": [part | None, ...], "fx": part | None}: the run folder is first
+    filled by sequential runs with these fixed_indices, the observed run then uses cleanup=False."""
+    from . import c06
+
     req = c["req"]
     mode = run["exec"]
+    lin = resume is not None
     with tempfile.TemporaryDirectory(prefix="verif_c03_") as tmp:
         log = mapsym.CallLog(os.path.join(tmp, "calls.log") if mode in ("process", "default") else None)
         p = build_pipeline(req, log, delay_seed=None if mode == "ctl" else run.get("seed", 0))
         if real_gens(p, req) != c["gens"]:
             return Err("GenerationMismatch")
-        d = os.path.join(tmp, "run") if run.get("folder", True) else None
+        d = os.path.join(tmp, "run") if (run.get("folder", True) or lin) else None
         created = []
+        mk = dict(cleanup=True, fixed=None)
+        prelog = []
+        if lin:
+            for k, part in enumerate(resume["pre"]):
+                p.map(mapsym.map_inputs(req), run_folder=d, internal_shapes=mapsym.internal_arg(req),
+                      storage=storage_arg(req, run), parallel=False, cleanup=(k == 0),
+                      fixed_indices=None if part is None else c06._fixed(part))
+            prelog = log.read()
+            mk = dict(cleanup=not resume["pre"], fixed=None if resume["fx"] is None else c06._fixed(resume["fx"]))
+        n0 = len(prelog)
+        prelog = sorted(prelog)
         try:
             if mode == "ctl":
-                sched = Sched(run["pis"], run.get("eager") or ())
+                sched = Sched(run["pis"], run.get("eager") or (), _gen_of(c))
+                _LAST["sched"] = sched
                 ex, _ = executor_arg(req, run, lambda: CtlExecutor(sched))
-                with DumpRecorder(lambda: sched.in_task) as rec:
-                    r = _call_map(p, req, run, d, ex)
-                return [_values(req, r, d), log.read(), rec.obs(req, r)]
+                with DumpRecorder(lambda: sched.in_task, lin) as rec:
+                    r = _call_map(p, req, run, d, ex, **mk)
+                return [_values(req, r, d), log.read()[n0:], rec.obs(req, r), prelog]
             if mode == "thread":
                 me = threading.get_ident()
                 ex, created = executor_arg(req, run,
                                            lambda: ThreadPoolExecutor(max_workers=1 + run.get("seed", 0) % 4))
-                with DumpRecorder(lambda: threading.get_ident() != me) as rec:
-                    r = _call_map(p, req, run, d, ex)
-                return [_values(req, r, d), canon_log(c, log.read()),
-                        sorted(rec.obs(req, r))]
+                with DumpRecorder(lambda: threading.get_ident() != me, lin) as rec:
+                    r = _call_map(p, req, run, d, ex, **mk)
+                return [_values(req, r, d), canon_log(c, log.read()[n0:]),
+                        sorted(rec.obs(req, r)), prelog]
             if mode == "process":
                 k = itertools.count()
 
@@ -427,21 +477,25 @@ def _run(c, run):
                     return t
 
                 ex, _ = executor_arg(req, run, make)
-                r = _call_map(p, req, run, d, ex)
+                r = _call_map(p, req, run, d, ex, **mk)
             else:  # pipefunc's own default executor (ProcessPoolExecutor created by _maybe_executor)
-                r = _call_map(p, req, run, d, None)
-            return [_values(req, r, d), canon_log(c, log.read()), []]
+                r = _call_map(p, req, run, d, None, **mk)
+            return [_values(req, r, d), canon_log(c, log.read()[n0:]), [], prelog]
         finally:
             for e in created:
                 e.shutdown(wait=False)
 
 
-def _run_guarded(c, run):
+def _run_guarded(c, run, resume=None):
     box = {}
 
     def target():
+        import warnings
+
         try:
-            box["r"] = _run(c, run)
+            with warnings.catch_warnings():
+                warnings.simplefilter("ignore")     # "Errors comparing keys and values" on object arrays (resume)
+                box["r"] = _run(c, run, resume)
         except BaseException as e:  # noqa: BLE001
             box["r"] = Err(e)
 
@@ -462,8 +516,8 @@ def _val_strings(v):
 
 def run_impl(c):
     raw, timeouts = [], 0
-    for run in c["runs"]:
-        o = Err("Timeout") if timeouts >= 2 else _run_guarded(c, run)
+    for run, resume in [(r_, None) for r_ in c["runs"]] + [(s_["run"], s_) for s_ in c.get("resume") or []]:
+        o = Err("Timeout") if timeouts >= 2 else _run_guarded(c, run, resume)
         if isinstance(o, Err) and o.name == "OtherError" and o.detail == "":
             timeouts += 1
         raw.append(o)
@@ -474,6 +528,7 @@ def run_impl(c):
                 for v in vs:
                     strings.update(_val_strings(v))
             strings.update(o[1])
+            strings.update(o[3])
     table = sorted(strings)
     idx = {x: k for k, x in enumerate(table)}
 
@@ -495,7 +550,7 @@ def run_impl(c):
             vals.append([] if any(e is None for e in es) else es)
         if vals not in blocks:
             blocks.append(vals)
-        out.append([1, blocks.index(vals), [idx[x] for x in o[1]], o[2]])
+        out.append([1, blocks.index(vals), [idx[x] for x in o[1]], o[2], [idx[x] for x in o[3]]])
     return [table, blocks, out]
 
 
@@ -545,6 +600,43 @@ def _probe(req):
     return gens, sched.batches
 
 
+def _probe_resume(req, gens, pre, fx):
+    """Number of tasks each generation submits in the observed run of a scenario on a pre-filled folder."""
+    run = {"pis": [], "stor": {f["name"]: "dict" for f in req["funcs"]}, "stor_form": "str", "entry": "map",
+           "exec": "ctl", "exec_form": "single", "folder": True}
+    import warnings
+
+    with contextlib.redirect_stdout(io.StringIO()), warnings.catch_warnings():
+        warnings.simplefilter("ignore")
+        o = _run({"req": req, "gens": gens}, run, {"pre": pre, "fx": fx})
+    if isinstance(o, Err):
+        raise RuntimeError(o.detail)
+    sched = _LAST["sched"]
+    sizes = [0] * len(gens)
+    for n, g in zip(sched.batches, sched.batch_gens):
+        sizes[g] = n
+    return sizes
+
+
+def _resume_scenarios(rng, req, k):
+    """(pre-filling fixed_indices runs, fixed_indices of the observed run); None = a full run."""
+    from . import c06
+
+    scen = [([None], None)]                      # a complete folder: the observed run computes nothing
+    axes = c06.root_axes(req)
+    good = sorted(set(axes) - c06.reduced_axes_py(req))
+    if good:
+        parts, _ = c06.gen_parts(rng, req, good)
+        if parts:
+            scen.append((parts[:rng.randint(1, max(1, len(parts) - 1))], None))    # resume what is left
+            scen.append(([], parts[0]))                                            # a part on an empty folder
+            if len(parts) > 1:
+                scen.append((parts[:1], parts[1]))                                 # a part after another part
+    if len(scen) > k:
+        scen = [scen[1]] + rng.sample([scen[0]] + scen[2:], k - 1)
+    return scen
+
+
 def _stor(rng, req, kind):
     if kind in STORAGES:
         return {f["name"]: kind for f in req["funcs"]}, rng.choice(["str", "str", "each", "default"])
@@ -584,6 +676,7 @@ def generate(rng, tier, mult):
     cases = []
     n_chain = 2 if not thorough else 8
     n_proc_quick = 4          # quick: real process pools on the chains and on a few random requests
+    n_resume = 10 if not thorough else n_req   # requests that also get runs on an existing store
     for q in range(n_chain + n_req):
         chain = q < n_chain
         req = _none_chain(rng) if chain else _request(rng)
@@ -654,6 +747,27 @@ def generate(rng, tier, mult):
                                 exec_form="single", seed=rng.randrange(10 ** 6)))
         for k in range(0, len(runs), MAX_RUNS):
             cases.append({"req": req, "gens": gens, "runs": runs[k:k + MAX_RUNS]})
+        # runs on an existing store: pre-filled run folder (cleanup=False) and / or fixed_indices
+        if chain or n_resume > 0:
+            n_resume -= 0 if chain else 1
+            resume = []
+            for pre, fx in _resume_scenarios(rng, req, 2 if not thorough else 4):
+                try:
+                    rsizes = _probe_resume(req, gens, pre, fx)
+                except Exception:  # noqa: BLE001
+                    continue
+                execs = ["ctl", "ctl", "thread"] + (["process"] if (thorough or chain) else [])
+                for j, exec_ in enumerate(execs):
+                    r_ = run(_random_pis(rng, rsizes) if exec_ == "ctl" else [], rng.choice(sweep_kinds), exec_,
+                             rng.choice(["map", "async"]), seed=rng.randrange(10 ** 6))
+                    r_["folder"] = True
+                    if exec_ == "ctl" and j == 1:
+                        eager = [sorted(rng.sample(range(n), rng.randint(0, n))) for n in rsizes]
+                        r_["eager"] = eager
+                        r_["pis"] = [e + [s_ for s_ in pi if s_ not in e] for e, pi in zip(eager, r_["pis"])]
+                    resume.append({"pre": pre, "fx": fx, "run": r_})
+            if resume:
+                cases.append({"req": req, "gens": gens, "runs": [], "resume": resume})
     return cases
 
 
@@ -670,9 +784,22 @@ def emit_case(c) -> str:
         runs.append("{| r_pis := %s; r_dis := %s; r_mode := %d |}" % (
             clist([_nats(pi) for pi in r["pis"]]), clist([cbool(DIS[r["stor"][f["name"]]]) for f in req["funcs"]]), mode))
     none = clist([cstr(f["name"]) for f in req["funcs"] if f.get("nullable")])
-    return "{| q_funcs := %s; q_inputs := %s; q_internal := %s; q_gens := %s; q_runs := %s; q_none := %s |}" % (
+    from . import c06
+
+    def cfg(r):
+        mode = {"ctl": 0, "thread": 1}.get(r["exec"], 2)
+        return "{| r_pis := %s; r_dis := %s; r_mode := %d |}" % (
+            clist([_nats(pi) for pi in r["pis"]]), clist([cbool(DIS[r["stor"][f["name"]]]) for f in req["funcs"]]), mode)
+
+    def ofx(part):
+        return "None" if part is None else "(Some %s)" % c06.fixed_lit(part)
+
+    resume = clist(["{| s_pre := %s; s_fx := %s; s_cfg := %s |}" % (clist([ofx(q) for q in s_["pre"]]), ofx(s_["fx"]),
+                                                                   cfg(s_["run"])) for s_ in c.get("resume") or []])
+    return ("{| q_funcs := %s; q_inputs := %s; q_internal := %s; q_gens := %s; q_runs := %s; q_none := %s; "
+            "q_resume := %s |}") % (
         clist([mapgen.func_lit(f) for f in req["funcs"]]), mapgen._env(req["inputs"]),
-        mapgen.shapes_lit(req.get("internal")), clist([_nats(g) for g in c["gens"]]), clist(runs), none)
+        mapgen.shapes_lit(req.get("internal")), clist([_nats(g) for g in c["gens"]]), clist(runs), none, resume)
 
 
 # ------------------------------------------------------------------ evidence helpers
@@ -681,12 +808,14 @@ def _run_nontrivial(r):
 
 
 def nontrivial_key(c):
-    if not any(_run_nontrivial(r) for r in c["runs"]):
+    if not (any(_run_nontrivial(r) for r in c["runs"]) or c.get("resume")):
         return None
     return ([[mapsym.spec_str(f.get("spec")), bool(f.get("nullable"))] for f in c["req"]["funcs"]],
             [v["sh"] if isinstance(v, dict) else 0 for _, v in c["req"]["inputs"]],
             [[sorted(r["stor"].items()), r["stor_form"], r["exec"], r["exec_form"], r["entry"], r["pis"],
-              r.get("folder", True), r.get("eager")] for r in c["runs"]])
+              r.get("folder", True), r.get("eager")] for r in c["runs"]],
+            [[s_["pre"], s_["fx"], s_["run"]["exec"], s_["run"]["pis"], sorted(s_["run"]["stor"].items())]
+             for s_ in c.get("resume") or []])
 
 
 def _bucket(n):
@@ -697,7 +826,7 @@ def _bucket(n):
 
 
 def distribution(c):
-    runs = c["runs"]
+    runs = c["runs"] + [s_["run"] for s_ in c.get("resume") or []]
     d = {"runs_per_case": _bucket(len(runs)), "generations": len(c["gens"]),
          "max_gen_width": max(len(g) for g in c["gens"]),
          "max_tasks_in_generation": max([len(pi) for r in runs for pi in r["pis"]] or [0]),
@@ -719,6 +848,11 @@ def distribution(c):
         d["has eager starts"] = "yes"
     if any(not r.get("folder", True) for r in runs):
         d["has run_folder=None"] = "yes"
+    for s_ in c.get("resume") or []:
+        kind = ("complete folder" if s_["pre"] == [None] else
+                ("resume after parts" if s_["fx"] is None else
+                 ("fixed_indices on empty folder" if not s_["pre"] else "fixed_indices after a part")))
+        d["existing store: " + kind + " / " + s_["run"]["exec"]] = "yes"
     return d
 
 
